@@ -21,6 +21,8 @@ class Prop:
     id = ""
     lean_module = ""
     harness = "wire"
+    # streams: (value of the harness's -prop flag, model driver executable, share of the budget)
+    streams = None
     harness_go = "go"
     harness_test = False
     harness_pkg = None
@@ -36,8 +38,8 @@ class Prop:
                   "model is tied to the working tree by the correspondence run and the regenerated facts, whose strength is "
                   "bounded by the generators reported in the evidence; Go runtime/stdlib semantics as modelled.")
 
-    def harness_cmd(self, binary, workdir, seed, budget, tier):
-        return [binary, "-prop", self.id, "-seed", str(seed), "-budget", str(budget), "-dir", workdir]
+    def harness_cmd(self, binary, workdir, seed, budget, tier, flag=None):
+        return [binary, "-prop", flag or self.id, "-seed", str(seed), "-budget", str(budget), "-dir", workdir]
 
     def harness_timeout(self, tier):
         return 1800 if tier == "thorough" else 600
@@ -76,6 +78,26 @@ class C02(Prop):
                   "and decided by the kernel. Tie: real AllocAndPack/Unpack vs model on the same values, full bytes and values.")
 
 
+class C11(Prop):
+    id = "C11"
+    lean_module = "Props.C11"
+    streams = [("C11", "knxdrv", 0.6), ("C11h", "gendrv", 0.4)]
+    budgets = {"quick": 60000, "thorough": 400000}
+    rule = ("frames: L_Data req/con/ind over all 2^16 pairs of control octets (strided in the quick tier), all 16 APCI x "
+            "16 sequence x numbered x data/control combinations, payload and info lengths 1..254, corner addresses; each "
+            "packed by the real encoder, compared with an independent bit-writer rendering of the specified layout, and the "
+            "layout decoded back. helpers: the five flag functions over all 256 inputs, hop round trip under 4 surrounding "
+            "octets, the four address constructors over 12^3 corner triples plus random ones; compared with the definitions "
+            "regenerated from the source (gendrv) and with arithmetic written from the specification. distinct = distinct "
+            "frames / helper calls.")
+    technique = "Lean 4 proof (encoder = independent bit-layout spec; decide over the full 8-bit domains of the regenerated helper functions) + differential correspondence"
+    level_text = ("Theorems: what LData.Pack writes equals the specification's bit layout (Knx.Spec.Layout, written with bit-vector "
+                  "concatenation) for all field values / lengths; the decoder extracts those fields; the flag constructors and "
+                  "accessors - translated from the current source by the extractor on every run - agree with the layout on their "
+                  "whole domain, incl. Hops(Control2Hops h) = min h 7. Tie: regenerated definitions + exhaustive comparison with "
+                  "the real functions; frames through the real Pack/Unpack vs model and vs an independent Go bit writer.")
+
+
 class C15(Prop):
     id = "C15"
     lean_module = "Props.C15"
@@ -91,7 +113,7 @@ class C15(Prop):
     partial = "prefill-independence / no-overrun are shown by the differential run, not yet by a buffer-level Lean theorem"
 
 
-ALL = {c.id: c for c in [C01, C02, C15]}
+ALL = {c.id: c for c in [C01, C02, C11, C15]}
 NOT_CLAIMED = {}
 
 
@@ -127,13 +149,35 @@ def replay(path):
     return 0
 
 
-def run_once(P, tier, seed, budget, workdir, binary, drv):
+def run_once(P, tier, seed, budget, workdir, binary, drivers):
+    """runs every stream of the property; returns merged stats, disagreements, op count"""
+    streams = P.streams or [(P.id, "knxdrv", 1.0)]
+    merged = dict(ops=0, distinct=0, classes={}, generated={}, samples=[], findings=[])
+    all_dis, total = [], 0
+    for flag, drvname, share in streams:
+        stats, dis, n = run_stream(P, tier, seed, max(1, int(budget * share)), os.path.join(workdir, flag), binary,
+                                   drivers[drvname], flag)
+        merged["ops"] += stats.get("ops", 0)
+        merged["distinct"] += stats.get("distinct", 0)
+        for k in ("classes", "generated"):
+            for a, b in (stats.get(k) or {}).items():
+                merged[k][a] = merged[k].get(a, 0) + b
+        merged["samples"] += (stats.get("samples") or [])[:6]
+        merged["findings"] += stats.get("findings") or []
+        for d in dis:
+            d["stream"] = flag
+        all_dis += dis
+        total += n
+    return merged, all_dis, total
+
+
+def run_stream(P, tier, seed, budget, workdir, binary, drv, flag):
     os.makedirs(workdir, exist_ok=True)
     for f in ("ops.txt", "impl.txt", "model.txt", "stats.json"):
         fp = os.path.join(workdir, f)
         if os.path.exists(fp):
             os.remove(fp)
-    cmd = P.harness_cmd(P, binary, workdir, seed, budget, tier)
+    cmd = P.harness_cmd(P, binary, workdir, seed, budget, tier, flag)
     try:
         rc, out = runner.sh(cmd, cwd=workdir, timeout=P.harness_timeout(P, tier))
     except subprocess.TimeoutExpired:
@@ -142,6 +186,8 @@ def run_once(P, tier, seed, budget, workdir, binary, drv):
     if rc != 0 or not os.path.exists(sp):
         raise InfraError("harness failed (rc=%s): %s\n%s" % (rc, " ".join(cmd), out[-3000:]))
     stats = json.load(open(sp))
+    if drv is None:
+        return stats, [], stats.get("ops", 0)
     runner.run_driver(os.path.join(workdir, "ops.txt"), os.path.join(workdir, "model.txt"), drv)
     dis, n = runner.compare(os.path.join(workdir, "ops.txt"), os.path.join(workdir, "impl.txt"),
                             os.path.join(workdir, "model.txt"), P.proj)
@@ -163,6 +209,13 @@ def run(prop, tier, seed):
         if not ok:
             raise InfraError("model driver does not build:\n" + out[-4000:])
         proof_ok, proof_log = runner.lake_build([P.lean_module])
+        gen_ok = True
+        if any(d == "gendrv" for _, d, _ in (P.streams or [])):
+            # gendrv executes the definitions regenerated from the source; when the source no longer
+            # translates, that is a broken tie (decided below), not an infrastructure failure
+            gen_ok, gout = runner.lake_build(["gendrv"])
+            if not gen_ok:
+                proof_log += "\n[gendrv] " + gout[-3000:]
         thms, audit_ok, audit_log = [], False, ""
         if proof_ok:
             audit_ok, thms, audit_log = runner.audit(P.lean_module)
@@ -176,17 +229,22 @@ def run(prop, tier, seed):
         built = runner.build_harness(P.harness, go=P.harness_go, test=P.harness_test, pkg=P.harness_pkg)
         binary = os.path.join(workdir, os.path.basename(built))
         shutil.copy(built, binary)
-        drv = os.path.join(workdir, "knxdrv")
-        shutil.copy(runner.driver_path(), drv)
+        drivers = {}
+        for dn in sorted({d for _, d, _ in (P.streams or [(P.id, "knxdrv", 1.0)])}):
+            src = os.path.join(LEAN, ".lake", "build", "bin", dn)
+            if dn == "gendrv" and not gen_ok:
+                drivers[dn] = None  # the oracle of that stream still runs on the implementation
+                continue
+            drivers[dn] = os.path.join(workdir, dn)
+            shutil.copy(src, drivers[dn])
 
     obligations = len(thms)
     discharged = len([t for t in thms if t["ok"]])
-    proof_broken = (not proof_ok) or (not audit_ok) or obligations == 0 or discharged != obligations \
+    proof_broken = (not gen_ok) or (not proof_ok) or (not audit_ok) or obligations == 0 or discharged != obligations \
         or bool(forbidden) or not leanchecker_ok
     broken_names = []
     if not proof_ok:
-        broken_names = sorted(set(l.split(":")[0] for l in proof_log.split("\n") if l.startswith("error:")))[:5] \
-            or ["lake build " + P.lean_module]
+        broken_names = runner.broken_theorems(proof_log)[:8] or ["lake build " + P.lean_module]
     else:
         broken_names = [t["name"] for t in thms if not t["ok"]] + forbidden[:5]
 
@@ -200,7 +258,7 @@ def run(prop, tier, seed):
     def one(s, b, label):
         nonlocal evaluations, distinct
         wd = os.path.join(workdir, label)
-        stats, dis, n = run_once(P, tier, s, b, wd, binary, drv)
+        stats, dis, n = run_once(P, tier, s, b, wd, binary, drivers)
         evaluations += stats.get("ops", 0)
         distinct += stats.get("distinct", 0)
         for k, v in stats.get("classes", {}).items():
